@@ -372,6 +372,10 @@ func Symbolic(ptr interface{}, label string) {
 	fill(v.Elem(), label)
 }
 
+// SetInt stores v into an integer field of whatever width / signedness the code under test
+// currently gives it (harnesses stay compilable across such representation changes).
+func SetInt[T ~int | ~int32 | ~int64 | ~uint | ~uint32 | ~uint64](p *T, v uint64) { *p = T(v) }
+
 // FieldNames lists the field names of a struct value (or pointer to one), comma separated, in
 // declaration order - for shape guards that must fail as a check result, not as a load error.
 func FieldNames(v interface{}) string {
